@@ -66,6 +66,9 @@ type E3Case struct {
 	Events   []E3Event    `json:"events"`
 	Queue    int          `json:"queue,omitempty"`
 	Faults   []mock.Fault `json:"faults,omitempty"`
+	// HTTPPanic (C07): instead of generated handlers, the shipped HTTP server codec and handler adapter; the http.Handler
+	// panics with this kind of value while serving a request (error | string | stringer-error | abort = http.ErrAbortHandler)
+	HTTPPanic string `json:"httppanic,omitempty"`
 }
 
 // trace -------------------------------------------------------------------
